@@ -53,7 +53,7 @@ class Ctx:
         return r, rp
 
     # ---- relational exploration of the real code
-    def explore(self, job, name="explore", count_as_traces=True):
+    def explore(self, job, name="explore", count_as_traces=True, relabel=None):
         job = dict(job); job.setdefault("seed", self.seed); job.setdefault("props", [self.pid])
         r = vlib.run_job(job, name)
         if r.get("hang"):
@@ -65,6 +65,8 @@ class Ctx:
         for s in (r.get("samples") or [])[:3]:
             if len(self.samples) < 12: self.samples.append(dict(source="harness " + name, case=s))
         for v in r.get("violations") or []:
+            if relabel and v["property"] in relabel:
+                v = dict(v, what=relabel[v["property"]][1] + ": " + v["what"], property=relabel[v["property"]][0])
             if v["property"] == self.pid: self.violation(v)
         self.extra.setdefault("explorations", []).append(dict(name=name, stats=st, wall_s=round(r.get("wall_s", 0), 1)))
         return r
@@ -370,6 +372,11 @@ def plan_C04(ctx):
     ctx.explore(dict(mode="reset", props=["C04"], cfgs=[mk("contacts", ccap=c) for c in (1, 2, 3)] + [mk("headersb", hcap=2, ccap=2)],
                      atoms=ATOMS["contacts"], maxlen=4 if ctx.quick else 5,
                      extra=dict(probes=[B("<sip:a@b>, <sip:c@d>;expires=3\r\nX"), B("m: <sip:a@b>, <sip:c@d>\r\n\r\n")])), "contact list reset histories, sane")
+    # the pure functions (relocation, URI parse / compare, IPv4 detection, signatures, lookups) on their TLC-enumerated domains:
+    # a real panic where the model predicts a result is a violation
+    for mod, cfg in (("MC_URIAdj", "MC_URIAdj_core.cfg"), ("MC_URI", "MC_URI_schemes.cfg"), ("MC_IP4", "MC_IP4_b4.cfg"), ("MC_URICmp", "MC_URICmp_recase.cfg"),
+                     ("MC_GenSig", "MC_GenSig_probe.cfg"), ("MC_GenSig", "MC_GenSig_caps8.cfg")) + (() if ctx.quick else (("MC_URIAdj", "MC_URIAdj.cfg"), ("MC_URICmp", "MC_URICmp_flags64v.cfg"), ("MC_IP4Gen", "MC_IP4Gen.cfg"))):
+        ctx.tlc(mod, cfg, workers=8, timeout=3000)
     # isolation at call-interleaving granularity: TLC enumerates every interleaving of the chunked calls of two objects (MC_Stream2,
     # invariant Isolated on the model); each is executed on two real objects and compared with their solo runs
     ctx.tlc("MC_Stream2", "MC_Stream2.cfg", workers=8, min_records=100)
@@ -838,6 +845,15 @@ def plan_C05(ctx):
         if len(ctx.samples) < 6:
             ctx.samples.append(dict(source="generated message, real observation judged by TLC (Judge_Msg)", case=open(dr).readline()[:600]))
         shutil.rmtree(d, ignore_errors=True); shutil.rmtree(r["dir"], ignore_errors=True)
+    # "... or under any chunk schedule": the one-shot observation of every message was judged above; every chunked parse must read
+    # back exactly that observation (all (p,q) pairs, full-state induction), hence satisfies the predicate too
+    f1, n1 = gen_corpus(ctx, 1, "hdrs", "corpus")
+    ctx.explore(dict(mode="explore", props=["C01"], cfgs=[mk(), mk(hcap=2, ccap=1), mk(flags=1, hcap=64, ccap=0)], inputs_file=f1, mutants=1), "msg K=1 chunked = one-shot",
+                relabel={"C01": ("C05", "a chunked parse reads back fields that differ from the (judged) one-shot fields")})
+    f2, n2 = gen_corpus(ctx, 2, "caps", "corpus", keep_every=(3 if ctx.quick else 1))
+    ctx.explore(dict(mode="explore", props=["C01"], cfgs=[mk(), mk(hcap=1, ccap=0)], inputs_file=f2, light=True), "msg K=2 chunked = one-shot",
+                relabel={"C01": ("C05", "a chunked parse reads back fields that differ from the (judged) one-shot fields")})
+    cleanup(ctx)
     ctx.nontrivial = ctx.records
     ctx.need("real message observations judged by TLC", ctx.records, 3000)
 
